@@ -185,13 +185,15 @@ def cache_histories(rng, n_hist):
     import cobyqa.models as M
     import algrun
     reqs, obs, fails = [], [], []
-    kinds = {"same": 0, "column": 0, "shift": 0, "negzero": 0, "nan": 0, "restore": 0}
+    kinds = {"same": 0, "tiny": 0, "column": 0, "shift": 0, "negzero": 0, "nan": 0, "restore": 0}
     for _ in range(n_hist):
         r = np.random.default_rng(int(rng.integers(1 << 30)))
         n = int(r.integers(1, 4))
         npt = int(r.integers(n + 1, (n + 1) * (n + 2) // 2 + 1))
         models, fs, options, pb = algrun.make_models(r, n, npt, 0, 0)
         I = models.interpolation
+        if r.random() < 0.25:
+            I.xpt[...] = I.xpt * 2.0 ** -30          # late phase of a run: a set of the size of radius_final
         I._lhs_cache = None
         key = lambda: [f2b(v) for v in I.xpt.ravel()]  # noqa
         toks = ["1"] + [str(b) for b in key()]
@@ -220,9 +222,14 @@ def cache_histories(rng, n_hist):
                     fails.append({"what": "build_system returned matrices that differ from a fresh computation for the live points", "history": " ".join(toks)})
                     break
                 continue
-            if u < 0.55:
+            if u < 0.52:
                 I.xpt[:, int(r.integers(npt))] *= 1.0
                 kinds["same"] += 1
+            elif u < 0.6:
+                # a move far below any sensible tolerance is still a move: the key comparison is exact
+                kk = int(r.integers(npt))
+                I.xpt[:, kk] = I.xpt[:, kk] + 1e-10 * np.array([algrun.dy(r, -2, 2) for _ in range(n)])
+                kinds["tiny"] += 1
             elif u < 0.75:
                 I.xpt[:, int(r.integers(npt))] = [algrun.dy(r, -2, 2) for _ in range(n)]
                 kinds["column"] += 1
